@@ -12,6 +12,7 @@ from __future__ import annotations
 
 import itertools
 import math
+import os
 import struct
 import time
 from fractions import Fraction
@@ -20,6 +21,8 @@ import torch
 import z3
 
 INT_AS_REAL = True
+STOP_EXPLORATION = False
+BUDGET_EXHAUSTED = None
 F_NATIVE_UF = False  # F mode: Ackermannise too (explicit congruence) - faster than UF+FP theory combination in z3
 RNE = z3.RNE()
 F32 = z3.Float32()
@@ -958,6 +961,10 @@ def decide(cond) -> bool:
     if z3.is_false(cond):
         return False
     bg = background()
+    if SLICE_F:
+        # feasibility is over-approximated on the cone of influence of the condition (an infeasible path that slips
+        # through is harmless: its obligations are discharged vacuously under the full path condition)
+        bg = cone_of_influence(cond, bg)
     t = check_sat(bg + [cond], c.decide_timeout_ms)
     f = check_sat(bg + [z3.Not(cond)], c.decide_timeout_ms)
     if t.status == "unknown" or f.status == "unknown":
@@ -1002,7 +1009,16 @@ def explore(fn, mode="R", max_paths=1000000, setup=None, prefix0=()):
     Yields (context, result-or-exception). `prefix0` fixes the first decisions (used to split work across processes)."""
     stack = [list(prefix0)]
     n = 0
+    global STOP_EXPLORATION, BUDGET_EXHAUSTED
+    STOP_EXPLORATION = False
+    t_start = time.time()
+    budget = float(os.environ.get("VERIF_TASK_BUDGET", "900" if os.environ.get("VERIF_TIER", "quick") == "quick" else "5400"))
     while stack:
+        if STOP_EXPLORATION:
+            break
+        if time.time() - t_start > budget:
+            BUDGET_EXHAUSTED = f"exploration budget of {budget:.0f}s exhausted after {n} paths ({len(stack)} prefixes pending)"
+            break
         prefix = stack.pop()
         c = new_context(mode, prefix)
         if setup:
